@@ -39,6 +39,11 @@ for pid, text in HIST.items():
 CLAIMED["C05"]["text"] += " CLI level: TLC-generated histories with failing commands, timeouts, missing declared outputs and failing checks are replayed into the real binary: non-zero exit, failed targets named, descendants of a failure never started, independent targets built, and (through the executed sets of the follow-up builds) nothing cached for a failure."
 CLAIMED["C05"]["note"] = WALK_NOTE + " " + HIST_NOTE
 
+CLAIMED["C09"] = dict(engine="keys", technique="TLA+ specification of the abstract key state and its byte encoding, injectivity checked by TLC on a universe of boundary-shift neighbours; every enumerated state hashed by the real hashing API and the partitions compared (enumerated-case conformance)",
+    category="model_checking", design_ref="DESIGN.md section 4.7, section 7 C09",
+    text="KeyEncoding.tla defines the abstract build state (label, command, declared inputs with content or absence, outputs, fingerprint, platform or multiplatform, dependency digests) and Enc, the framed byte stream hash_target.go writes; TLC proves Enc injective on a universe that contains every adjacent-component boundary shift and list-separator case (and shows the unframed encoding of the pinned tree is not). Every state is materialised and hashed by the real GetTargetChangeHash under xxh3 and sha256: the number of distinct real keys must equal the number of abstract states, and re-declaring a state with shuffled inputs/outputs/dependency digests, a fresh fingerprint map and a different workspace root must give the same key.",
+    note="Universe: 2 labels sharing a prefix, 2 commands, 3 input names incl. one containing ',', contents '' / 'x' (/ 'xx'), absent files, fingerprint keys/values containing '=', output sets {o,p} vs {o,p as one name}, 2-3 platforms incl. multiplatform-cache, 0-2 dependency digests: 33 696 states (quick), ~350 000 (thorough). Trusted: TLC, no hash collisions among the enumerated states.")
+
 PENDING = "check not built yet in this round (specification and binding planned in DESIGN.md section 7); not claimed until its quick tier is registered"
 
 checks, na = [], []
@@ -74,6 +79,7 @@ manifest = {
  "engines": [
    {"name": "walker", "path": "spec/Walker.tla + spec/WalkerTrace.tla + harness/walkdrv + vlib/walker_engine.py", "serves_properties": ["C03", "C04", "C05"], "kind_free_text": "exhaustive TLC over all small DAGs; trace validation of real executions under controlled schedules"},
    {"name": "history", "path": "spec/GrogBuild.tla + spec/GrogBuildGen.tla + vlib/build_engine.py + vlib/checks/_hist.py", "serves_properties": ["C01", "C02", "C05", "C13", "C14", "C15"], "kind_free_text": "exhaustive TLC over histories; TLC-generated behaviours replayed into the real binary"},
+   {"name": "keys", "path": "spec/KeyEncoding.tla + harness/cmd/h/keys.go + vlib/checks/c09.py", "serves_properties": ["C09"], "kind_free_text": "TLC-enumerated universe of key states, real hashing compared by partition"},
    {"name": "labels", "path": "spec/Labels.tla + harness/cmd/h/labels.go + vlib/checks/c17.py", "serves_properties": ["C17"], "kind_free_text": "TLC-enumerated function specification, reference table replayed into the real API"},
  ],
  "checks": checks,
